@@ -175,6 +175,13 @@ def check(run: Run) -> None:
 
     mism = run_items(run, items)
     report_unexplained(run, mism, explained, "corr_commit (the incrementally built class vs the model of the final field list)")
+    # unspecified fields take the type's zero value - also after other instances were mutated and after the type was extended
+    for prob in F.default_sharing_problems():
+        if "C18" == "C17" or "add_field" in " ".join(prob["history"]):
+            failures += 1
+            n_oracle += 1
+            run.report("C18/stale-default", {"definition": "fixed default-construction histories (vf/props/_family.py)", "ops": [{"op": "history", **prob}]})
+
     F.obligation_fallback(run, ok, bool(failures or mism))
     F.finish_cov(run, items, mism,
                  "random field sequences (1-5 fields from 18 kinds incl. bit fields, nested structs, arrays, pointers, a trailing null-terminated array) x EVERY splitting into add_field "
